@@ -1608,9 +1608,14 @@ def _relation(step, earlier):
     operation that ran just before.
     """
     if step["op"] == "multiplane":
+        edited = ""
         for prev in reversed(earlier):
+            if prev["op"] == "edit":
+                edited = "vertices_edited+"
             if prev["op"] != "multiplane":
                 continue
+            if edited:
+                return "after_" + edited + "multiplane_same_or_other_plane"
             a, b = plane_from_record(step["planes"][0]), plane_from_record(prev["planes"][0])
             if a.n != b.n:
                 return "after_multiplane_other_normal"
@@ -1632,8 +1637,23 @@ def execute_history(run, case):
     shared = top.mesh()
     v0, f0 = np.array(shared.vertices), np.array(shared.faces)
     done = []
+    mesh_now = case["mesh"]
     for k, st in enumerate(steps):
-        sub = {"op": st["op"], "mesh": case["mesh"], "planes": st["planes"], "unit": st["unit"], "opts": st.get("opts", {})}
+        if st["op"] == "edit":
+            # the caller moves the vertices in place (no read in between): the next call is a call on
+            # the mesh as it is now - nothing computed for the old vertices may answer
+            # (from seeded change C11-r4-2)
+            shift = np.array(st["shift"], dtype=np.int64)
+            mesh_now = dict(mesh_now, V=(np.array(mesh_now["V"], dtype=np.int64) + shift).tolist())
+            if st.get("how") == "setter":
+                shared.vertices = np.asarray(shared.vertices) + shift.astype(np.float64)
+            else:
+                shared.vertices[:] = np.asarray(shared.vertices) + shift.astype(np.float64)
+            v0 = np.array(shared.vertices)
+            done.append(st)
+            run.count("history_vertex_edits")
+            continue
+        sub = {"op": st["op"], "mesh": mesh_now, "planes": st["planes"], "unit": st["unit"], "opts": st.get("opts", {})}
         hist = _relation(st, done) if done else None
         execute(run, sub, shared=shared, hist=hist, parent=(case, k))
         done.append(st)
@@ -1757,6 +1777,14 @@ def history_case(rng, tag, V, F, planes, closed, mclass, quick):
         return {"op": op, "planes": [plane_record(pn, po, cls)], "unit": bool(rng.integers(2)), "opts": opts}
 
     steps = [strip(multiplane_case(rng, tag, V, F, 0, quick, n=n, o=o1, unit=unit))]
+    if int(rng.integers(2)):
+        # the vertices move (all by one integer vector) between two calls with the bit-identical plane
+        shift = [int(c) for c in rng.integers(-3, 4, size=3)]
+        if any(shift):
+            V2 = np.asarray(V, dtype=np.int64) + np.array(shift, dtype=np.int64)
+            steps.append({"op": "edit", "shift": shift, "how": ("inplace", "setter")[int(rng.integers(2))]})
+            steps.append(strip(multiplane_case(rng, tag, V2, F, 0, quick, n=n, o=o1, unit=unit)))
+            V = V2
     steps.append(single("section"))
     steps.append(strip(multiplane_case(rng, tag, V, F, 0, quick, n=n, o=o2, unit=unit)))
     steps.append(single("slice", route="slice_plane"))
